@@ -22,7 +22,7 @@ enum { O_A, O_L, O_U, O_B, O_X, O_OPT, O_TRANS, O_NORM, O_UPLO, O_TRANSC, O_DIAG
 enum { F_NONE, F_NROW, F_NCOL, F_NEG, F_NROWNEG, F_NCOLNEG, F_NCOLMIS, F_NCOLZERO, F_STYPE, F_DTYPE, F_MTYPE, F_LDA, F_FACT, F_TRANS, F_EQUIL };
 /* kinds: a corruption the documentation says must be rejected; a valid control; a valid call with no
  * right-hand side; a documented-but-known-unscreened tag (sp_trsv, sp_gemv); documented lower-case
- * letters (valid); wrong B/X description while B->ncol = X->ncol = 0 */
+ * letters (valid, sp_gemv); a wrong B/X description while B->ncol = X->ncol = 0 (valid for gssvx) */
 enum { K_CORRUPT, K_VALID, K_VALID_NRHS0, K_UNSCREENED, K_LOWER, K_NCOL0_TAGS };
 static const char *kind_name[] = { "corrupt", "valid", "valid-nrhs0", "unscreened-tag", "lowercase", "ncol0-tags" };
 typedef struct { int obj, fld, pos, alt; } site_t;
@@ -43,8 +43,6 @@ typedef struct { int routine, kind; site_t site[1]; } entry_t;
     C_(r, O_EQUED, F_NONE, 6), C_(r, O_R, F_NONE, 7), C_(r, O_C, F_NONE, 8), C_(r, O_LWORK, F_NONE, 12), \
     C_(r, O_B, F_NCOLNEG, 13), DENSE(r, O_B, 13), \
     C_(r, O_X, F_NCOLNEG, 14), C_(r, O_X, F_NCOLMIS, 14), C_(r, O_X, F_NCOLZERO, 14), C_(r, O_B, F_NCOLMIS, 14), DENSE(r, O_X, 14), \
-    { r, K_NCOL0_TAGS, { { O_B, F_STYPE, 13, 0 } } }, { r, K_NCOL0_TAGS, { { O_B, F_DTYPE, 13, 0 } } }, { r, K_NCOL0_TAGS, { { O_B, F_LDA, 13, 0 } } }, \
-    { r, K_NCOL0_TAGS, { { O_X, F_STYPE, 14, 0 } } }, { r, K_NCOL0_TAGS, { { O_X, F_MTYPE, 14, 0 } } }, { r, K_NCOL0_TAGS, { { O_X, F_LDA, 14, 0 } } }, \
     V_(r), V_(r), V_(r), { r, K_VALID_NRHS0, { { 0, 0, 0, 0 } } }
 
 static const entry_t catalogue[] = {
@@ -53,6 +51,10 @@ static const entry_t catalogue[] = {
     C_(R_GSSV, O_B, F_NCOLNEG, 7), DENSE(R_GSSV, O_B, 7), V_(R_GSSV), V_(R_GSSV), { R_GSSV, K_VALID_NRHS0, { { 0, 0, 0, 0 } } },
     /* gssvx, gsisx (options, A, perm_c, perm_r, etree, equed, R, C, L, U, work, lwork, B, X, ...) */
     XDRV(R_GSSVX), XDRV(R_GSISX),
+    /* "If B->ncol = 0, only LU decomposition is performed": with no columns the description of B / X is not a
+       precondition of gssvx (valid controls; gsisx examines it nevertheless, which C18 does not speak about) */
+    { R_GSSVX, K_NCOL0_TAGS, { { O_B, F_STYPE, 0, 0 } } }, { R_GSSVX, K_NCOL0_TAGS, { { O_B, F_DTYPE, 0, 0 } } }, { R_GSSVX, K_NCOL0_TAGS, { { O_B, F_LDA, 0, 0 } } },
+    { R_GSSVX, K_NCOL0_TAGS, { { O_X, F_STYPE, 0, 0 } } }, { R_GSSVX, K_NCOL0_TAGS, { { O_X, F_MTYPE, 0, 0 } } }, { R_GSSVX, K_NCOL0_TAGS, { { O_X, F_LDA, 0, 0 } } },
     /* gstrs (trans, L, U, perm_c, perm_r, B, stat, info) */
     C_(R_GSTRS, O_TRANS, F_NONE, 1), FACTOR(R_GSTRS, O_L, 2), FACTOR(R_GSTRS, O_U, 3), DENSE(R_GSTRS, O_B, 6), V_(R_GSTRS), V_(R_GSTRS),
     /* gsrfs (trans, A, L, U, perm_c, perm_r, equed, R, C, B, X, ferr, berr, stat, info) */
@@ -66,7 +68,7 @@ static const entry_t catalogue[] = {
     C_(R_TRSV, O_UPLO, F_NONE, 1), C_(R_TRSV, O_TRANSC, F_NONE, 2), C_(R_TRSV, O_DIAG, F_NONE, 3), SQ(R_TRSV, O_L, 4), SQ(R_TRSV, O_U, 5),
     { R_TRSV, K_UNSCREENED, { { O_L, F_STYPE, 4, 0 } } }, { R_TRSV, K_UNSCREENED, { { O_L, F_DTYPE, 4, 0 } } }, { R_TRSV, K_UNSCREENED, { { O_L, F_MTYPE, 4, 0 } } },
     { R_TRSV, K_UNSCREENED, { { O_U, F_STYPE, 5, 0 } } }, { R_TRSV, K_UNSCREENED, { { O_U, F_DTYPE, 5, 0 } } }, { R_TRSV, K_UNSCREENED, { { O_U, F_MTYPE, 5, 0 } } },
-    { R_TRSV, K_LOWER, { { 0, 0, 0, 0 } } }, V_(R_TRSV), V_(R_TRSV),
+    V_(R_TRSV), V_(R_TRSV),   /* upper-case flags only: the rejection of the documented lower-case ones is not C18's matter */
     /* sp_gemv (trans, alpha, A, x, incx, beta, y, incy) */
     C_(R_GEMV, O_TRANSC, F_NONE, 1), C_(R_GEMV, O_A, F_NROWNEG, 3), C_(R_GEMV, O_A, F_NCOLNEG, 3), C_(R_GEMV, O_INCX, F_NONE, 5), C_(R_GEMV, O_INCY, F_NONE, 8),
     { R_GEMV, K_UNSCREENED, { { O_A, F_STYPE, 3, NCNCP } } }, { R_GEMV, K_UNSCREENED, { { O_A, F_DTYPE, 3, 0 } } }, { R_GEMV, K_UNSCREENED, { { O_A, F_MTYPE, 3, 0 } } },
